@@ -397,6 +397,8 @@ impl Prop for C18 {
             // address pools include values that look like ethertypes when they sit at bytes 12..13 of a raw packet
             let c = if v6 { Endpoint::v6(1 + r.below(200) as u16, 1024 + r.below(60000) as u16) } else { Endpoint::v4(*r.pick(&[10u8, 192, 172, 100]), r.u8(), r.u8(), 1 + r.below(250) as u8, 1024 + r.below(60000) as u16) };
             let s = if v6 { Endpoint::v6(0x500 + r.below(20) as u16, *r.pick(&[80u16, 443, 8080])) } else { Endpoint::v4(*r.pick(&[10u8, 203, 198]), r.u8(), r.u8(), 1 + r.below(250) as u8, *r.pick(&[80u16, 443, 8080])) };
+            // one connection in five has both ends on the same address (loopback capture, hairpin NAT)
+            let s = if r.chance(1, 5) { Endpoint { ip: c.ip, port: s.port } } else { s };
             let h = tcp::Host::random(r);
             let mut seg = tcp::data(&h, c, s, r.u32(), r.u32(), r.bytes(40), 0, 0, pkt::ACK);
             if r.chance(1, 3) {
